@@ -99,6 +99,7 @@ fn real_run<N, const K: usize>(
     start: usize,
     plan: &BTreeSet<usize>,
     double: bool,
+    pre: bool,
 ) -> Result<(Vec<(usize, usize, usize)>, Vec<(usize, Option<usize>)>), String> {
     catch(|| {
         let mut items = vec![];
@@ -107,6 +108,13 @@ fn real_run<N, const K: usize>(
             ($it:expr, $conv:expr, $key:expr) => {{
                 let mut it = $it;
                 let mut guard = 0;
+                if pre {
+                    // no item has been returned yet: nothing may be omitted
+                    it.skip_subtree();
+                    if double {
+                        it.skip_subtree();
+                    }
+                }
                 loop {
                     guard += 1;
                     if guard > 100 {
@@ -170,31 +178,37 @@ fn check_traversals<N, const K: usize>(t: &Tree<N, K>, a: &Adj, hist: &[Act], ou
     for &start in a.nodes.keys() {
         let sub = a.subtree(start);
         // skip plans: all subsets of the subtree's nodes up to size max_plan, the full set, and doubles
-        let mut plans: Vec<(BTreeSet<usize>, bool)> = vec![(BTreeSet::new(), false)];
+        // the third component asks for skip_subtree before the first next() (node traversals only: an edge traversal
+        // has the start node as its implicit current item, so the call is not judged there)
+        let mut plans: Vec<(BTreeSet<usize>, bool, bool)> = vec![(BTreeSet::new(), false, false), (BTreeSet::new(), false, true), (BTreeSet::new(), true, true)];
         for (i, &x) in sub.iter().enumerate() {
-            plans.push(([x].into_iter().collect(), false));
-            plans.push(([x].into_iter().collect(), true));
+            plans.push(([x].into_iter().collect(), false, false));
+            plans.push(([x].into_iter().collect(), true, false));
+            plans.push(([x].into_iter().collect(), false, true));
             if max_plan >= 2 {
                 for &y in sub.iter().skip(i + 1) {
-                    plans.push(([x, y].into_iter().collect(), false));
+                    plans.push(([x, y].into_iter().collect(), false, false));
                 }
             }
         }
         if sub.len() > 2 {
-            plans.push((sub.iter().cloned().collect(), false));
-            plans.push((sub.iter().cloned().collect(), true));
+            plans.push((sub.iter().cloned().collect(), false, false));
+            plans.push((sub.iter().cloned().collect(), true, false));
         }
         for kind in [Kind::Pre, Kind::Edge, Kind::Level] {
-            for (plan, double) in &plans {
+            for (plan, double, pre) in &plans {
+                if *pre && kind == Kind::Edge {
+                    continue;
+                }
                 out.add("traversal_runs", 1);
                 let exp = reference(a, kind, start, plan);
                 let tagk = format!("{:?}", kind);
                 let tagroot = if start == a.root { "root" } else { "inner" };
-                let tagskip = if plan.is_empty() { "none" } else if *double { "double" } else { "single" };
-                match real_run(t, kind, start, plan, *double) {
+                let tagskip = if *pre { "before_first_next" } else if plan.is_empty() { "none" } else if *double { "double" } else { "single" };
+                match real_run(t, kind, start, plan, *double, *pre) {
                     Err(msg) => {
                         out.violate(
-                            Violation::new(format!("{tagk} traversal from {start} panicked: {msg}"), rec(json!({"start": start, "plan": plan, "double": double})))
+                            Violation::new(format!("{tagk} traversal from {start} panicked: {msg}"), rec(json!({"start": start, "plan": plan, "double": double, "skip_before_first_next": pre})))
                                 .tag("kind", "panic").tag("traversal", &tagk).tag("start", tagroot).tag("skip", tagskip),
                         );
                     }
@@ -211,8 +225,8 @@ fn check_traversals<N, const K: usize>(t: &Tree<N, K>, a: &Adj, hist: &[Act], ou
                             };
                             out.violate(
                                 Violation::new(
-                                    format!("{tagk} from node {start}, skip after {:?}{}: got {:?}, expected {:?}", plan, if *double { " (twice)" } else { "" }, items, exp),
-                                    rec(json!({"start": start, "plan": plan, "double": double})),
+                                    format!("{tagk} from node {start}, skip {}after {:?}{}: got {:?}, expected {:?}", if *pre { "before the first next() and " } else { "" }, plan, if *double { " (twice)" } else { "" }, items, exp),
+                                    rec(json!({"start": start, "plan": plan, "double": double, "skip_before_first_next": pre})),
                                 )
                                 .tag("kind", "stream").tag("what", what).tag("traversal", &tagk).tag("start", tagroot).tag("skip", tagskip),
                             );
@@ -430,7 +444,7 @@ pub fn run(tier: Tier) -> Report {
     let runs = rep.coverage.get("traversal_runs").and_then(|v| v.as_u64()).unwrap_or(0);
     rep.set("transitions", runs);
     rep.set("traces_validated_against_impl", runs);
-    rep.set("bound", format!("arena states reachable by <= {d2} (K=2) / {d3} (K=3) tree operations, len <= {ml}; every start node; skip plans: none, every single position (once and twice), every pair, all positions"));
+    rep.set("bound", format!("arena states reachable by <= {d2} (K=2) / {d3} (K=3) tree operations, len <= {ml}; every start node; skip plans: none, before the first next() of the node traversals (once, twice, combined with every single position), every single position (once and twice), every pair, all positions"));
     rep.assume("size_hint is judged against the number of items still to come if no further skip_subtree is called");
     rep.assume("depth of a single root is 0 (pinned by the repository's test_depth; the doc comment says 1)");
     rep
